@@ -16,29 +16,92 @@ import (
 
 // ---- construction paths ------------------------------------------------------------------------
 
-func provePush(h hashKind, leaves [][]byte, n, i int) ([]byte, [][]byte, uint64, uint64) {
-	tr := merkletree.New(h.lib())
+// provePush builds the tree by plain pushes. With dirty, every leaf is handed to Push as a window of a
+// larger caller buffer whose surroundings (incl. the window's spare capacity) hold non-zero bytes, and the
+// buffers must be byte-identical after Prove().
+func (a *acc) provePush(leaves [][]byte, n, i int, dirty bool) ([]byte, [][]byte, uint64, uint64) {
+	tr := merkletree.New(a.h.lib())
 	if err := tr.SetIndex(uint64(i)); err != nil {
 		panic(err)
 	}
+	var checks []func() bool
 	for _, l := range leaves[:n] {
+		if dirty {
+			w, ok := window(l)
+			checks = append(checks, ok)
+			l = w
+		}
 		tr.Push(l)
 	}
-	return tr.Prove()
+	root, ps, idx, nl := tr.Prove()
+	for j, ok := range checks {
+		if !ok() {
+			a.t.Fatalf("%s/%s n=%d i=%d: Push/Prove modified the caller's buffer around leaf %d (data or spare capacity)", a.h.name, a.flav, n, i, j)
+		}
+	}
+	if dirty {
+		a.count("input:slice_with_dirty_spare_capacity", fmt.Sprintf("Push n=%d i=%d", n, i))
+	}
+	return root, ps, idx, nl
+}
+
+// observe reads Root() and Prove() of a partially built tree (m leaves so far, proof index i) and compares
+// them with the reference for those m leaves. Both calls are documented as pure observations.
+func (a *acc) observe(tr *merkletree.Tree, R *ref.MerkleRef, m, i int, after, what string) {
+	what = fmt.Sprintf("%s: after %s, %d leaves so far", what, after, m)
+	var wantRoot []byte
+	if m > 0 {
+		wantRoot = R.Root(m)
+	}
+	if got := tr.Root(); !bytes.Equal(got, wantRoot) || (got == nil) != (m == 0) {
+		a.t.Fatalf("%s/%s %s: Root() = %x, MTH of the leaves so far = %x", a.h.name, a.flav, what, got, wantRoot)
+	}
+	root, ps, idx, nl := tr.Prove()
+	if !bytes.Equal(root, wantRoot) || idx != uint64(i) || nl != uint64(m) {
+		a.t.Fatalf("%s/%s %s: Prove() root = %x (MTH %x) index=%d numLeaves=%d", a.h.name, a.flav, what, root, wantRoot, idx, nl)
+	}
+	if m <= i {
+		if ps != nil {
+			a.t.Fatalf("%s/%s %s: proof set %s although the proof index has not been reached", a.h.name, a.flav, what, hexs(ps))
+		}
+	} else {
+		want := R.ProofSet(i, m)
+		if len(ps) != len(want) {
+			a.t.Fatalf("%s/%s %s: proof set %s, want %s", a.h.name, a.flav, what, hexs(ps), hexs(want))
+		}
+		for j := range ps {
+			if !bytes.Equal(ps[j], want[j]) {
+				a.t.Fatalf("%s/%s %s: proof set %s, want %s", a.h.name, a.flav, what, hexs(ps), hexs(want))
+			}
+		}
+		if !a.verify(root, ps, idx, nl) {
+			a.t.Fatalf("%s/%s %s: the proof handed out does not verify against the root handed out with it\nroot=%x proofSet=%s", a.h.name, a.flav, what, root, hexs(ps))
+		}
+	}
+	a.count("observe_mid:after_"+after, what)
 }
 
 // proveSubTrees builds the tree for (n, i) out of cached complete sub-trees whose sums come from the
 // reference, never containing i. strategy 0: the largest aligned sub-tree at every position; 1: one
 // height less (so equal-height cached trees get joined by the library); 2: height 0 only (every leaf but
 // i enters as a cached sum). With probes, the two documented refusals are attempted at every position
-// and must return an error without changing the tree.
-func (a *acc) proveSubTrees(R *ref.MerkleRef, leaves [][]byte, n, i, strategy int, probes bool) ([]byte, [][]byte, uint64, uint64) {
+// and must return an error without changing the tree. With observeMid, Root() and Prove() are read and
+// compared with the reference after every single operation (refused ones included); cached sums are handed
+// over as windows of dirty buffers.
+func (a *acc) proveSubTrees(R *ref.MerkleRef, leaves [][]byte, n, i, strategy int, probes, observeMid bool) ([]byte, [][]byte, uint64, uint64) {
 	tr := merkletree.New(a.h.lib())
 	if err := tr.SetIndex(uint64(i)); err != nil {
 		panic(err)
 	}
 	junk := R.MTH(0, 1)
-	what := fmt.Sprintf("n=%d i=%d", n, i)
+	what := fmt.Sprintf("n=%d i=%d strategy=%d", n, i, strategy)
+	var checks []func() bool
+	obs := func(after string, m int) {
+		if observeMid {
+			a.observe(tr, R, m, i, after, what)
+		}
+	}
+	obs("nothing", 0)
 	for p := 0; p < n; {
 		if probes {
 			if p > 0 {
@@ -48,6 +111,7 @@ func (a *acc) proveSubTrees(R *ref.MerkleRef, leaves [][]byte, n, i, strategy in
 					a.t.Fatalf("%s/%s %s: PushSubTree(height %d) at position %d accepted although the smallest sub-tree has height %d", a.h.name, a.flav, what, hb, p, hb-1)
 				}
 				a.count("refusal:larger_than_smallest_subtree", fmt.Sprintf("%s p=%d height=%d", what, p, hb))
+				obs("refused_pushsubtree", p)
 			}
 			if p <= i {
 				// smallest height whose range [p, p+2^h) contains i
@@ -59,11 +123,13 @@ func (a *acc) proveSubTrees(R *ref.MerkleRef, leaves [][]byte, n, i, strategy in
 					a.t.Fatalf("%s/%s %s: PushSubTree(height %d) at position %d accepted although it contains the proof index", a.h.name, a.flav, what, hc, p)
 				}
 				a.count("refusal:contains_proof_index", fmt.Sprintf("%s p=%d height=%d", what, p, hc))
+				obs("refused_pushsubtree", p)
 			}
 		}
 		if p == i {
 			tr.Push(leaves[p])
 			p++
+			obs("push", p)
 			continue
 		}
 		hmax := 0
@@ -81,12 +147,28 @@ func (a *acc) proveSubTrees(R *ref.MerkleRef, leaves [][]byte, n, i, strategy in
 		}
 		if hh == 0 && strategy != 2 && p%2 == 1 {
 			tr.Push(leaves[p])
-		} else if err := tr.PushSubTree(hh, R.MTH(p, p+1<<hh)); err != nil {
+			p++
+			obs("push", p)
+			continue
+		}
+		sum, ok := window(R.MTH(p, p+1<<hh))
+		checks = append(checks, ok)
+		if err := tr.PushSubTree(hh, sum); err != nil {
 			a.t.Fatalf("%s/%s %s: PushSubTree(height %d) of the aligned complete sub-tree [%d,%d) refused: %v", a.h.name, a.flav, what, hh, p, p+1<<hh, err)
 		}
 		p += 1 << hh
+		obs("pushsubtree", p)
 	}
-	return tr.Prove()
+	root, ps, idx, nl := tr.Prove()
+	for _, ok := range checks {
+		if !ok() {
+			a.t.Fatalf("%s/%s %s: PushSubTree/Prove modified the caller's buffer around a cached sum (data or spare capacity)", a.h.name, a.flav, what)
+		}
+	}
+	if len(checks) > 0 {
+		a.count("input:slice_with_dirty_spare_capacity", "PushSubTree "+what)
+	}
+	return root, ps, idx, nl
 }
 
 // ---- the (n, i) sweep --------------------------------------------------------------------------
@@ -116,12 +198,16 @@ func sweep(t *testing.T, h hashKind, c sweepCfg) {
 			t.Fatalf("%s/%s n=%d: Root() = %x, MTH = %x", h.name, c.flavour, n, got, R.Root(n))
 		}
 		for i := 0; i < n; i++ {
-			root, ps, idx, nl := provePush(h, leaves, n, i)
+			// dirty caller buffers for every (n,i) up to 130 leaves, one (n,i) in eight above
+			root, ps, idx, nl := a.provePush(leaves, n, i, n <= 130 || (n+i)%8 == 0)
 			a.honest("push", R, n, i, root, ps, idx, nl)
 			a.tamper(root, ps, i, n, n <= c.allIdxN)
 			if c.subTrees {
 				for s, name := range []string{"subtree_max", "subtree_half", "subtree_height0"} {
-					root, ps, idx, nl = a.proveSubTrees(R, leaves, n, i, s, s == 0)
+					// Root()/Prove() after every operation: always for the two strategies with O(log n) operations,
+					// for the height-0 strategy (n operations) always with SHA-256 and for one (n,i) in eight with MiMC
+					mid := s < 2 || !h.field || (n+i)%8 == 0
+					root, ps, idx, nl = a.proveSubTrees(R, leaves, n, i, s, s == 0, mid)
 					a.honest(name, R, n, i, root, ps, idx, nl)
 				}
 			}
